@@ -11,7 +11,10 @@ META = {
     "rule": ("Hypothesis draws (input dtype, output type, values biased to "
              "type limits / half-integers / target bounds, array form, copy "
              "mode); non-trivial = at least one value needs rounding or "
-             "clamping; distinct by the whole case."),
+             "clamping; distinct by the whole case."
+             ' Also: big-endian inputs, 64-bit integers next to float32 ro'
+             'unding midpoints beyond 2^53; slices: narrowing conversions '
+             'as the slice converter applies them.'),
     "trusted_base": ["vlib/refs/dtype_ref.py (Fraction arithmetic)"],
     "assumptions": ["finite values only; float64 values beyond the float32 "
                     "range are not offered to a float32 target"],
